@@ -43,8 +43,21 @@ Definition fault_sites (a : list N) : list site :=
     filter (fun s => obj_eqb (s_obj s) OObLoad) (valid_ranges_sites t q)
   else valid_ranges_sites t q.
 
+(* zero-length transfers through the std / positioned-io / tokio exact loops (read_exact, write_all, read_exact_at,
+   write_all_at of nothing: the leaf of the empty blob) make no call on the underlying object; the iroh-io style
+   objects of the fsm side (read_at / write / write_bytes_at with a length argument) are called even for nothing *)
+Definition is_sync_op (op : N) : bool := existsb (N.eqb op) [0; 1; 3; 5; 7; 9; 10; 12; 14; 16].
+Definition real_sites (a : list N) : list site :=
+  let sync_ := is_sync_op (arg a 4) in
+  filter (fun s =>
+            negb (match s_obj s with
+                  | ODataSeq | OStreamOut | OStreamIn => sync_ && (s_a s =? 0)
+                  | ODataAt | OTarget => sync_ && (s_b s =? 0)
+                  | _ => false
+                  end)) (fault_sites a).
+
 Definition run_fault (a : list N) : list N :=
-  let sites := fault_sites a in
+  let sites := real_sites a in
   let '(rc, log) :=
     if arg a 6 =? 0 then ((0, 0), sites)
     else with_fault sites (obj_of (arg a 5)) (arg a 6 - 1) (kind_from (arg a 7)) (0, 0) [] in
